@@ -130,6 +130,16 @@ def op_save_path(run):
     return "#%d" % run.saves
 
 
+def op_save_same_stream(run):
+    run.save_and_check("same-stream")
+    return "#%d" % run.saves
+
+
+def op_save_same_path(run):
+    run.save_and_check("same-path")
+    return "#%d" % run.saves
+
+
 def op_reopen(run):
     import pptx
 
@@ -363,7 +373,7 @@ def op_add_movie(run):
         kw["poster_frame_image"] = f[run.rnd.choice(["img0", "img1"])]
     if run.rnd.random() < 0.5:
         kw["mime_type"] = run.rnd.choice(["video/mp4", "video/quicktime"])
-    mv = s.shapes.add_movie(f["movie"], *geom(run), **kw)
+    mv = s.shapes.add_movie(f[run.rnd.choice(["movie", "movie", "movie_upper"])], *geom(run), **kw)
     remember_shape(run, s, mv)
     run.acc.hit("add_movie")
     return str(sorted(kw))
@@ -586,7 +596,9 @@ def op_fill(run):
         s, sh = a_shape(run, lambda x: hasattr(x, "line"))
         fill = sh.line.fill
     else:
-        fill = a_slide(run).background.fill
+        sl = a_slide(run)
+        holder = r.choice([sl, sl, sl.slide_layout, sl.slide_layout.slide_master])  # masters carry p:bgRef
+        fill = holder.background.fill
     k = r.choice(["solid", "gradient", "patterned", "background", "fore_rgb", "fore_theme", "gradient_angle", "stops", "pattern", "back_rgb"])
     if k == "solid":
         fill.solid()
@@ -675,6 +687,9 @@ def op_table(run):
     elif k == "merge":
         a = t.cell(r.randrange(nr), r.randrange(nc))
         b = t.cell(r.randrange(nr), r.randrange(nc))
+        if r.random() < 0.6:  # text in cells of the range (it migrates to the origin on merge)
+            for _ in range(r.randint(1, 3)):
+                t.cell(r.randrange(nr), r.randrange(nc)).text = r.choice(["x", "two\nparas", "t"])
         a.merge(b)  # ValueError on overlap (documented)
     elif k == "merge_foreign":
         s2, sh2 = a_shape(run, lambda x: getattr(x, "has_table", False) and x is not sh)
@@ -867,7 +882,7 @@ def op_chart_fmt(run):
         n = len(list(se.values))
         if n == 0:
             raise Rejected()
-        pt = se.points[r.randrange(n)]
+        pt = se.points[r.choice([r.randrange(n), r.randrange(n), -1, n])]  # out of range: documented IndexError
         pt.format.fill.solid()
         pt.format.fill.fore_color.rgb = gen.rgb(r)
         if r.random() < 0.5:
@@ -916,6 +931,8 @@ def _pil_exc():
 ALL_OPS = {
     "save_stream": (op_save_stream, NONE),
     "save_path": (op_save_path, NONE),
+    "save_same_stream": (op_save_same_stream, NONE),
+    "save_same_path": (op_save_same_path, NONE),
     "reopen": (op_reopen, NONE),
     "core_prop": (op_core_prop, (VE,)),
     "add_slide": (op_add_slide, NONE),
@@ -961,7 +978,7 @@ ALL_OPS = {
 PROFILES = {
     # C02: relationship-creating and -dropping ops, saves everywhere
     "pkg": {
-        "save_stream": 10, "save_path": 2, "reopen": 4, "core_prop": 2, "add_slide": 8, "slide_index_bad": 1, "slides_get": 2, "read_slides": 4,
+        "save_stream": 10, "save_path": 2, "save_same_stream": 4, "save_same_path": 2, "reopen": 4, "core_prop": 2, "add_slide": 8, "slide_index_bad": 1, "slides_get": 2, "read_slides": 4,
         "remove_layout": 3, "add_shape": 3, "add_textbox": 3, "add_picture": 8, "add_picture_notimage": 1, "add_connector": 1, "add_group": 2,
         "add_chart": 6, "add_table": 2, "add_movie": 4, "add_ole": 4, "ph_insert": 4, "run_hyperlink": 8, "click_action": 8, "chart_replace": 5,
         "notes": 5, "text_assign": 2, "traverse": 2, "add_freeform": 1, "table": 1, "hyperlink_share": 6,
@@ -977,7 +994,7 @@ PROFILES = {
     "ids": {
         "add_slide": 10, "add_shape": 8, "add_textbox": 5, "add_picture": 6, "add_connector": 4, "add_group": 8, "add_freeform": 6, "add_chart": 4,
         "add_table": 3, "add_movie": 3, "add_ole": 2, "turbo": 4, "notes": 3, "run_hyperlink": 3, "click_action": 3, "slides_get": 3,
-        "read_slides": 2, "save_stream": 4, "ph_insert": 2,
+        "read_slides": 2, "save_stream": 4, "ph_insert": 2, "hyperlink_share": 4, "connect": 3,
     },
 }
 PROFILES["mixed"] = {k: 3 for k in ALL_OPS}
